@@ -591,24 +591,52 @@ func (c *Ctx) OfflineUUIDInputs() []core.Ob {
 		return []core.Ob{o}
 	}
 	o.Pos, o.Func = c.P.Pos(fn.Pos()), core.FnName(fn)
-	// everything the digest is fed, in order: hash.Write(b), io.WriteString(h, s), md5.Sum(b)
+	// everything the digest is fed, in order: hash.Write(b), io.WriteString(h, s), md5.Sum(b) - in
+	// NameToUUID or in the helper of the package that computes the digest (nameDigest(name, ..))
 	var fed []ssa.Value
-	for _, b := range fn.Blocks {
-		for _, in := range b.Instrs {
-			ci, ok := in.(ssa.CallInstruction)
-			if !ok {
-				continue
-			}
-			cc := ci.Common()
-			switch n := calleeName(cc); {
-			case cc.IsInvoke() && (cc.Method.Name() == "Write" || cc.Method.Name() == "WriteString") && len(cc.Args) == 1:
-				fed = append(fed, cc.Args[0])
-			case n == "io.WriteString" && len(cc.Args) == 2:
-				fed = append(fed, cc.Args[1])
-			case n == "crypto/md5.Sum" && len(cc.Args) == 1:
-				fed = append(fed, cc.Args[0])
+	nameVal := ssa.Value(fn.Params[0])
+	for _, g := range c.withPkgCallees(fn, 2) {
+		var gfed []ssa.Value
+		for _, b := range g.Blocks {
+			for _, in := range b.Instrs {
+				ci, ok := in.(ssa.CallInstruction)
+				if !ok {
+					continue
+				}
+				cc := ci.Common()
+				switch n := calleeName(cc); {
+				case cc.IsInvoke() && (cc.Method.Name() == "Write" || cc.Method.Name() == "WriteString") && len(cc.Args) == 1:
+					gfed = append(gfed, cc.Args[0])
+				case n == "io.WriteString" && len(cc.Args) == 2:
+					gfed = append(gfed, cc.Args[1])
+				case n == "crypto/md5.Sum" && len(cc.Args) == 1:
+					gfed = append(gfed, cc.Args[0])
+				}
 			}
 		}
+		if len(gfed) == 0 {
+			continue
+		}
+		fed = gfed
+		if g != fn {
+			// which parameter of the helper receives the name
+			nameVal = nil
+			for _, p := range g.Params {
+				as := paramArgs(g, p)
+				if len(as) > 0 {
+					all := true
+					for _, a := range as {
+						if a != ssa.Value(fn.Params[0]) {
+							all = false
+						}
+					}
+					if all {
+						nameVal = p
+					}
+				}
+			}
+		}
+		break
 	}
 	// flatten conversions and string concatenations into their leaves
 	var leaves []ssa.Value
@@ -642,7 +670,7 @@ func (c *Ctx) OfflineUUIDInputs() []core.Ob {
 		if k, ok := leaves[0].(*ssa.Const); ok && k.Value != nil && k.Value.Kind() == constant.String && constant.StringVal(k.Value) == "OfflinePlayer:" {
 			prefixOK = true
 		}
-		nameOK = leaves[1] == ssa.Value(fn.Params[0])
+		nameOK = nameVal != nil && leaves[1] == nameVal
 	}
 	if !prefixOK || !nameOK {
 		o.Status, o.Got = core.Violated, fmt.Sprintf("the digest input is not exactly \"OfflinePlayer:\" followed by the name (%d pieces; prefix=%v, whole name=%v)", len(leaves), prefixOK, nameOK)
@@ -651,12 +679,14 @@ func (c *Ctx) OfflineUUIDInputs() []core.Ob {
 	v := core.Ob{Rule: "T-UUIDV3", Key: "offline:version-and-variant-bits", Armed: true, Status: core.OK, Pos: o.Pos, Func: o.Func,
 		Want: "byte 6 of the digest gets high nibble 0011 (version 3) and byte 8 gets top bits 10 (RFC 4122 variant), keeping the other bits of the digest"}
 	stores := map[int64]ssa.Value{}
-	for _, b := range fn.Blocks {
-		for _, in := range b.Instrs {
-			if st, ok := in.(*ssa.Store); ok {
-				if ia, ok := st.Addr.(*ssa.IndexAddr); ok {
-					if k, ok := constIntVal(ia.Index); ok {
-						stores[k] = st.Val
+	for _, g := range c.withPkgCallees(fn, 2) {
+		for _, b := range g.Blocks {
+			for _, in := range b.Instrs {
+				if st, ok := in.(*ssa.Store); ok {
+					if ia, ok := st.Addr.(*ssa.IndexAddr); ok {
+						if k, ok := constIntVal(ia.Index); ok {
+							stores[k] = st.Val
+						}
 					}
 				}
 			}
@@ -732,6 +762,13 @@ func (c *Ctx) SignatureHashOrder() []core.Ob {
 	if fn == nil {
 		o.Status, o.Got = core.Violated, "not found"
 		return []core.Ob{o}
+	}
+	// the digest may be computed in a helper of the package (pemDigest): the function that builds the encoder
+	for _, g := range c.withPkgCallees(fn, 2) {
+		if len(callsIn(g, func(n string, _ *ssa.CallCommon) bool { return n == "encoding/base64.NewEncoder" })) > 0 {
+			fn = g
+			break
+		}
 	}
 	o.Pos, o.Func = c.P.Pos(fn.Pos()), core.FnName(fn)
 	// the roles are read off the data flow: the encoder is what base64.NewEncoder returns, the
